@@ -72,7 +72,8 @@ def split_tokens(rng, row):
     if m < 0.45 or len(ws) == 1:
         return [s_tok(row)]
     if m < 0.8:
-        return [({"i": int(w)} if w.isdigit() and not w.startswith("0") and rng.random() < 0.5 else s_tok(w)) for w in ws]
+        return [({"i": int(w)} if w.isdigit() and (w == "0" or not w.startswith("0")) and rng.random() < 0.5 else s_tok(w))
+                for w in ws]
     k = rng.randint(1, len(ws) - 1)
     return [s_tok(" ".join(ws[:k])), s_tok(" ".join(ws[k:]))]
 
@@ -174,6 +175,9 @@ def gen_body(rng, depth, wild, budget):
                 toks = gen_block_tokens(rng, depth, wild)
                 if rng.random() < 0.3:
                     toks = toks + [rng.choice([{"n": 1}, s_tok("")])]
+                elif rng.random() < 0.25:
+                    # printable but falsy: the default condition is about None and "" only (`area 0`, `unit 0`)
+                    toks = toks + [{"i": 0}]
                 cond = rng.choice([None, None, None, True, False])
                 if cond is True and not wild:
                     toks = [t for t in toks if "n" not in t]
